@@ -33,14 +33,18 @@ CONSTANTS Codes,      \* message codes explored by the bounded wire model (subse
           RKeys,      \* key ids of the bounded rpc model
           RPass,      \* passphrases of the bounded rpc model
           MaxHist,    \* length of operation histories of the bounded rpc model
-          MaxLines    \* maximal number of lines of PIV tool output in the bounded rpc model
+          MaxLines,   \* maximal number of lines of PIV tool output in the bounded rpc model
+          MaxConns,   \* maximal number of concurrent connections to one server in the bounded model (part 3)
+          MaxCItems   \* maximal number of request frames per connection in part 3
 
 VARIABLES stream, pos, out, status, last,      \* wire part
-          ag, dag, remote, hist, rlast         \* rpc part
+          ag, dag, remote, hist, rlast,        \* rpc part
+          cs, clast                            \* several connections to one server (part 3)
 
 wvars == <<stream, pos, out, status, last>>
 rvars == <<ag, dag, remote, hist, rlast>>
-vars  == <<stream, pos, out, status, last, ag, dag, remote, hist, rlast>>
+cvars == <<cs, clast>>
+vars  == <<stream, pos, out, status, last, ag, dag, remote, hist, rlast, cs, clast>>
 
 ---------------------------------------------------------------------------
 \* dispatch of ServeAgent by message code
@@ -375,13 +379,72 @@ RFrozen == /\ ag = AgInit /\ dag = AgInit /\ remote = FALSE /\ hist = 0
            /\ rlast = [op |-> "init", code |-> -1, method |-> "", ncalls |-> 0, argeq |-> TRUE, reseq |-> TRUE, aerr |-> FALSE,
                        cerr |-> FALSE, pan |-> FALSE, remote |-> FALSE, toolran |-> FALSE, lines |-> <<>>, slots |-> <<>>,
                        exit |-> 0, steq |-> TRUE, mode |-> "model", shape |-> "normal"]
-ConsumeW   == Consume /\ UNCHANGED rvars
-ReleaseW   == Release /\ UNCHANGED rvars
-ViaClientR == (\E op \in Ops \ {"listslots"} : \E a \in ArgsOf(op) : ViaClient(op, a)) /\ UNCHANGED wvars
-ListSlotsR == (\E t \in ToolTexts, x \in {0, 1} : ListSlots(t, x)) /\ UNCHANGED wvars
-SlotReplyR == (\E op \in SlotOps, sh \in {"ok", "err", "both", "neither"} : SlotReply(op, sh)) /\ UNCHANGED wvars
+---------------------------------------------------------------------------
+\* Part 3: several connections to ONE server.  N copies of the per-connection stream automaton of part 1, composed
+\* with the state all connections share: the in-memory hardware certificates of the shim (abstractly: is there a
+\* stale - expired - one, which the next listing purges) over a healthy, unlocked underlying agent.  Every
+\* connection sends well-formed request frames only; what OTHER connections do at the same time must not cost a
+\* connection a response, end it, crash the process, or turn a listing into a refusal: with the agent unlocked and the
+\* underlying agent working a well-formed list request (code 11) is answered with an identities answer (the SET of
+\* identities in it may depend on the interleaving and is not constrained).  No lock / unlock in these streams.
+CFrames == {F(11, "1", "none", "none"), F(1, "1", "none", "none"), F(13, "n", "valid", "none"), F(17, "n", "valid", "none"),
+            F(31, "n", "valid", "struct"), F(31, "n", "valid", "legacy"), F(35, "n", "valid", "imm"), F(32, "1", "none", "none")}
+Eof == Item("eof", -1, "none", "none", "none")
+CStreams == {p \o <<Eof>> : p \in UNION {[1..n -> CFrames] : n \in 0..MaxCItems}}
+IsList(it) == it.k = "frame" /\ it.code = 11 /\ it.len = "1"
+KindOf(it) == CASE it.code = 11 -> "identities" [] it.code = 1 -> "v1-identities" [] it.code = 13 -> "signature"
+                [] it.code = 17 -> "success" [] it.code \in {31, 35} -> "text" [] OTHER -> "other"
+\* what one connection saw: the stream-level outcome of part 1, and every list request it sent was answered with an
+\* identities answer (kinds[i] = kind of the response to the i-th frame; the connection is driven in lock step)
+C12_Conn(items, kinds, nrep, st, pan, big) ==
+  /\ C12_Stream(items, nrep, st, pan, big)
+  /\ \A i \in 1..Len(items) : (IsList(items[i]) /\ i <= Len(kinds)) => kinds[i] = "identities"
+
+CInit == /\ \E n \in 2..MaxConns : cs = [str |-> [c \in 1..n |-> <<Eof>>], pos |-> [c \in 1..n |-> 1], out |-> [c \in 1..n |-> <<>>],
+                                          st |-> [c \in 1..n |-> "running"], stale |-> FALSE]
+         /\ clast = [c |-> 0, it |-> NoItem, nrep |-> 0, pan |-> FALSE]
+CStart == \* the streams of the connections are chosen (one action, so that TLC need not enumerate them as initial states)
+  /\ clast.c = 0 /\ \A c \in DOMAIN cs.str : cs.pos[c] = 1 /\ cs.st[c] = "running"
+  /\ \E f \in [DOMAIN cs.str -> CStreams], b \in BOOLEAN : cs' = [cs EXCEPT !.str = f, !.stale = b]
+  /\ clast' = [c |-> -1, it |-> NoItem, nrep |-> 0, pan |-> FALSE]
+CConsume(c) ==
+  /\ clast.c # 0 /\ cs.st[c] = "running" /\ cs.pos[c] <= Len(cs.str[c])
+  /\ LET it == cs.str[c][cs.pos[c]] IN
+     IF it.k = "eof"
+     THEN /\ cs' = [cs EXCEPT !.pos[c] = @ + 1, !.st[c] = "ok"]
+          /\ clast' = [c |-> c, it |-> it, nrep |-> 0, pan |-> FALSE]
+     ELSE /\ \E stl \in (IF it.code = 31 THEN {cs.stale, TRUE} ELSE IF it.code = 11 THEN {FALSE} ELSE {cs.stale}) :
+               cs' = [cs EXCEPT !.pos[c] = @ + 1, !.out[c] = Append(@, KindOf(it)), !.stale = stl]
+          /\ clast' = [c |-> c, it |-> it, nrep |-> 1, pan |-> FALSE]
+CNext == CStart \/ \E c \in DOMAIN cs.str : CConsume(c)
+\* a step of one connection: it alone moves, by exactly one response per frame, in order; a listing is answered
+C12_ConcStep ==
+  LET e == clast' IN
+  (e.c > 0) =>
+     /\ ~e.pan
+     /\ \A d \in DOMAIN cs.str : d # e.c => (cs'.pos[d] = cs.pos[d] /\ cs'.out[d] = cs.out[d] /\ cs'.st[d] = cs.st[d])
+     /\ Len(cs'.out[e.c]) = Len(cs.out[e.c]) + e.nrep /\ e.nrep = (IF e.it.k = "eof" THEN 0 ELSE 1)
+     /\ cs'.st[e.c] = (IF e.it.k = "eof" THEN "ok" ELSE "running")
+     /\ IsList(e.it) => cs'.out[e.c][Len(cs'.out[e.c])] = "identities"
+P_C12Conc == [][C12_ConcStep]_cvars
+Inv_Conn == \A c \in DOMAIN cs.str : (cs.st[c] = "ok") =>
+               C12_Conn(cs.str[c], cs.out[c], Len(cs.out[c]), "ok", FALSE, FALSE)
+CTypeOK == \A c \in DOMAIN cs.str : cs.st[c] \in {"running", "ok"} /\ cs.pos[c] \in 1..(Len(cs.str[c]) + 1)
+
+---------------------------------------------------------------------------
+CFrozen == /\ cs = [str |-> <<>>, pos |-> <<>>, out |-> <<>>, st |-> <<>>, stale |-> FALSE]
+           /\ clast = [c |-> 0, it |-> NoItem, nrep |-> 0, pan |-> FALSE]
+ConsumeW   == Consume /\ UNCHANGED rvars /\ UNCHANGED cvars
+ReleaseW   == Release /\ UNCHANGED rvars /\ UNCHANGED cvars
+ViaClientR == (\E op \in Ops \ {"listslots"} : \E a \in ArgsOf(op) : ViaClient(op, a)) /\ UNCHANGED wvars /\ UNCHANGED cvars
+ListSlotsR == (\E t \in ToolTexts, x \in {0, 1} : ListSlots(t, x)) /\ UNCHANGED wvars /\ UNCHANGED cvars
+SlotReplyR == (\E op \in SlotOps, sh \in {"ok", "err", "both", "neither"} : SlotReply(op, sh)) /\ UNCHANGED wvars /\ UNCHANGED cvars
+StartC     == CStart /\ UNCHANGED wvars /\ UNCHANGED rvars
+ConsumeC   == (\E c \in DOMAIN cs.str : CConsume(c)) /\ UNCHANGED wvars /\ UNCHANGED rvars
 NextW == ConsumeW \/ ReleaseW
 NextR == ViaClientR \/ ListSlotsR \/ SlotReplyR
-SpecWire == WInit /\ RFrozen /\ [][NextW]_vars
-SpecRpc  == RInit /\ WFrozen /\ [][NextR]_vars
+NextC == StartC \/ ConsumeC
+SpecWire == WInit /\ RFrozen /\ CFrozen /\ [][NextW]_vars
+SpecRpc  == RInit /\ WFrozen /\ CFrozen /\ [][NextR]_vars
+SpecConc == CInit /\ WFrozen /\ RFrozen /\ [][NextC]_vars
 =============================================================================
